@@ -22,10 +22,11 @@ ARGS_X = ARGS + ["B", "C"]
 VALS = [("i", 5), ("s", "sx"), ("a", 4), ("o", "A"), ("o", "B"), ("o", "C"), ("n", None)]
 PATHS = ["direct", "method", "dyn"]
 
-FIXTURE = """class A {}
+USERCLASSES = """class A {}
 class B extends A {}
 class C {}
-function tag($x) {
+"""
+FIXTURE = USERCLASSES + """function tag($x) {
   if (is_null($x)) { return "null"; }
   if (is_int($x)) { return "i:" . $x; }
   if (is_string($x)) { return "s:" . $x; }
@@ -50,6 +51,10 @@ PPAIR = ("PPair", ["K", "V"], [("k", "K"), ("w", "V")], "w")
 # and read through get_<p>(); the declared type must be enforced all the same
 SLOT = ("Slot", ["T"], [("cur", "T"), ("lim", "int"), ("v", "T")], None)
 SPAIR = ("SPair", ["K", "V"], [("a", "K"), ("b", "V"), ("w", "V")], None)
+# generic classes that have a (non-generic) PARENT class
+BBOX = ("BBox", ["T"], [("v", "T"), ("n", "int"), ("u", None)], None)
+BPAIR = ("BPair", ["K", "V"], [("k", "K"), ("w", "V")], None)
+EXT = {"BBox": "Base0", "BPair": "Base0"}
 VIS = {("Slot", "cur"): "private", ("Slot", "lim"): "protected", ("SPair", "a"): "protected", ("SPair", "b"): "private"}
 
 
@@ -82,8 +87,10 @@ def php_val(v):
 
 def class_decls(tbl):
     out = []
+    if any(c[0] in EXT for c in tbl):
+        out.append("class Base0 { public $b0 = 1; public function hello() { return 1; } }")
     for name, params, props, ctor in tbl:
-        out.append("class %s<%s> {" % (name, ", ".join(params)))
+        out.append("class %s<%s>%s {" % (name, ", ".join(params), (" extends " + EXT[name]) if name in EXT else ""))
         for p, t in props:
             if p == ctor:
                 out.append("  public function __construct(public %s$%s) {}" % ((t + " ") if t else "", p))
@@ -187,14 +194,20 @@ def op_lines(ops, emit, fs):
     return out
 
 
-def script(tbl, ops, factory=False):
-    out = [FIXTURE] + class_decls(tbl)
-    fs = None
-    if factory:
-        fs, fl = factories([ops])
-        out += fl
+def script(tbl, ops, factory=False, ns=False, late=False):
+    """ns: the whole script lives in `namespace App;` (the generic classes, A/B/C and the code);
+    late (with factory): the classes A, B, C that serve as type ARGUMENTS are declared textually AFTER the functions that
+    contain the `new G<A>()` expressions (they exist by the time those functions run)"""
+    fs, fl = (factories([ops]) if factory else (None, []))
+    if late and factory:
+        out = [FIXTURE[len(USERCLASSES):]] + class_decls(tbl) + fl + [USERCLASSES]
+    else:
+        out = [FIXTURE] + class_decls(tbl) + fl
     out += op_lines(ops, lambda e: 'echo %s, "\n";' % e, fs)
-    return "\n".join(out) + "\n"
+    src = "\n".join(out) + "\n"
+    if ns:
+        src = "namespace App;\n" + src.replace("catch (Throwable ", "catch (\\Throwable ")
+    return src
 
 
 def script_conc(tbl, hists, factory=True):
@@ -318,7 +331,7 @@ def parse_obs(out):
         elif line.startswith("a:") and line[2:].lstrip("-").isdigit():
             res.append("Got (VArr %s)" % coq_z(int(line[2:])))
         elif line.startswith("o:"):
-            res.append("Got (VObj %s)" % coq_string(line[2:]))
+            res.append("Got (VObj %s)" % coq_string(line[2:].split("\\")[-1]))      # App\A -> A (namespaced scripts)
         else:
             return None
     return res
@@ -385,7 +398,9 @@ def enumerated(tier):
         for ev in itertools.product([(a, w) for a in ARGS for w in (0, 1, 2)], repeat=n):
             cases.append(build(ev))
     ws = (0, 1, 2) if tier != "quick" else (0, 1)
-    for ev in itertools.product([(a, w) for a in ARGS for w in ws], repeat=4):
+    for k, ev in enumerate(itertools.product([(a, w) for a in ARGS for w in ws], repeat=4)):
+        if tier == "quick" and k % 2 == 1:
+            continue        # quick tier: every second of the 4096 length-4 sequences (all of them in the thorough tier)
         cases.append(build(ev))
     return cases
 
@@ -420,7 +435,7 @@ def enumerated_c(tier, rng):
             else:
                 ops.append(("newc", 90, "PBox", [a], other_value(a)))
         ops += probe_all(byn, live, len(ev))
-        cases.append({"tbl": tbl, "ops": ops, "gen": "enumc%d" % len(ev), "factory": ci % 2 == 1})
+        cases.append({"tbl": tbl, "ops": ops, "gen": "enumc%d" % len(ev), "factory": ci % 2 == 1, "ns": ci % 4 >= 2, "late": ci % 4 == 1})
     return cases
 
 
@@ -473,6 +488,21 @@ def enumerated_slot():
             live = [(0, "Slot", [a]), (1, "Slot", [b]), (2, "SPair", [b, a])]
             ops += probe_all(byn, live, len(cases))
             cases.append({"tbl": tbl, "ops": ops, "gen": "slot", "factory": len(cases) % 2 == 1})
+    return cases
+
+
+def enumerated_parent():
+    """BBox<T> / BPair<K,V> extend a plain class Base0: every ordered pair of instantiations over the four argument types
+    plus one BPair, all members probed; every second history in a namespace, every second through factories"""
+    cases = []
+    tbl = [BBOX, BPAIR]
+    byn = {c[0]: c for c in tbl}
+    for a in ARGS:
+        for b in ARGS:
+            ops = [("new", 0, "BBox", [a]), ("new", 1, "BBox", [b]), ("new", 2, "BPair", [b, a])]
+            live = [(0, "BBox", [a]), (1, "BBox", [b]), (2, "BPair", [b, a])]
+            ops += probe_all(byn, live, len(cases))
+            cases.append({"tbl": tbl, "ops": ops, "gen": "parent", "factory": len(cases) % 2 == 1, "ns": len(cases) % 4 >= 2, "late": len(cases) % 4 == 1})
     return cases
 
 
@@ -565,7 +595,8 @@ def seeded_ops(rng, tbl, nulls=False):
     return ops
 
 
-TABLES = [[BOX, PAIR], [PAIR], [BOX, CELL], [PAIR, CELL, BOX], [BOX, PBOX], [PBOX, PPAIR, PAIR], [PPAIR, BOX], [SLOT, BOX], [SPAIR, SLOT, PAIR]]
+TABLES = [[BOX, PAIR], [PAIR], [BOX, CELL], [PAIR, CELL, BOX], [BOX, PBOX], [PBOX, PPAIR, PAIR], [PPAIR, BOX], [SLOT, BOX], [SPAIR, SLOT, PAIR],
+          [BBOX, BOX], [BPAIR, BBOX, PBOX]]
 
 
 def seeded(rng, n):
@@ -573,8 +604,9 @@ def seeded(rng, n):
     for k in range(n):
         tbl = rng.choice(TABLES)
         nulls = rng.random() < 0.04
+        late_ok = all(t in (None, "int", "string", "array") or t in c[1] for c in tbl for _, t in c[2])
         cases.append({"tbl": tbl, "ops": seeded_ops(rng, tbl, nulls), "gen": "seeded-null" if nulls else "seeded",
-                      "factory": k % 2 == 1})
+                      "factory": k % 2 == 1, "ns": k % 4 == 2 or k % 8 == 3, "late": k % 4 == 1 and late_ok})
     return cases
 
 
@@ -702,11 +734,11 @@ def main(ck):
         for c in mcases:
             c["val"] = tuple(c["val"])
     else:
-        cases = enumerated(ck.tier) + enumerated_c(ck.tier, rng) + enumerated_nest(ck.tier, rng) + enumerated_slot() + seeded(rng, 1100 if ck.tier == "quick" else 30000)
+        cases = enumerated(ck.tier) + enumerated_c(ck.tier, rng) + enumerated_nest(ck.tier, rng) + enumerated_slot() + enumerated_parent() + seeded(rng, 900 if ck.tier == "quick" else 30000)
         mcases = member_cases()
-        groups = conc_groups(rng, 45 if ck.tier == "quick" else 1500)
+        groups = conc_groups(rng, 30 if ck.tier == "quick" else 1500)
 
-    srcs = [script(c["tbl"], c["ops"], c.get("factory", False)) for c in cases] + [c["src"] for c in mcases]
+    srcs = [script(c["tbl"], c["ops"], c.get("factory", False), c.get("ns", False), c.get("late", False)) for c in cases] + [c["src"] for c in mcases]
     outs, rc, err = run_impl(binary, srcs)
     if len(outs) != len(srcs):
         ck.log("harness returned %d results for %d cases rc=%d\n%s" % (len(outs), len(srcs), rc, err[-2000:]))
@@ -834,18 +866,22 @@ def main(ck):
     ck.cov["generators"] = {g: sum(1 for c in cases if c.get("gen") == g) for g in sorted(set(c.get("gen") for c in cases))}
     ck.cov["member_probes"] = len(mcases)
     ck.cov["histories_through_factory_functions"] = sum(1 for c in cases if c.get("factory"))
+    ck.cov["histories_in_a_namespace"] = sum(1 for c in cases if c.get("ns"))
+    ck.cov["histories_with_argument_classes_declared_after_the_new_sites"] = sum(1 for c in cases if c.get("late") and c.get("factory"))
+    ck.cov["histories_with_generic_classes_that_have_a_parent"] = sum(1 for c in cases if any(x[0] in EXT for x in c["tbl"]))
     ck.cov["concurrent"] = {"groups": len(groups), "runs_per_group": REPS, "histories_compared": conc_units,
                             "histories_per_group": sorted(set(len(g["hists"]) for g in groups)), "race_reports": races}
     ck.finish(level="proof", evaluations=len(cases) + len(mcases), distinct_nontrivial=nontriv,
               rule="histories: every sequence of 1..4 instantiations of Box<T> over {int,string,array,A}, after each `new` "
-                   "optionally an immediate store (matching / non-matching value; at length 4 in the quick tier only none/matching), "
+                   "optionally an immediate store (matching / non-matching value; at length 4 in the quick tier only none/matching and every second sequence), "
                    "then every live instance probed with all 7 value kinds through rotating store paths plus a read; "
                    "seeded histories over 1-3 generic classes with 1-2 parameters, 2-6 instantiations (incl. too few / too many "
                    "arguments, without type arguments, with a promoted constructor parameter given a matching / non-matching value) and 4-12 "
                    "stores/reads/calls of chk_p(<declared type> $x); every probe also calls chk_p with the 6 non-null value kinds; "
                    "enumc: every sequence of 1-2 (quick: +700 sampled of 3, thorough: all of 3) creation events over Box<T>/PBox<T> "
                    "{new+matching call, new+non-matching call, ctor matching, ctor non-matching} x 4 argument types + raw new; every second "
-                   "history creates through factory functions (one `new` node executed several times); nest*: an instantiation whose constructor arguments contain "
+                   "history creates through factory functions (one `new` node executed several times); a quarter of the enumc / parent / seeded histories run inside `namespace App;`, "
+                   "a quarter of the factory histories declare the argument classes A, B, C AFTER the functions holding the `new G<A>()` expressions; BBox<T> / BPair<K,V> extend a plain class; nest*: an instantiation whose constructor arguments contain "
                    "1-3 further instantiations with other type arguments (directly / through a call / as an array element / Name<X>() shorthand), every instance then probed, outer first; 4% of the seeded histories give null "
                    "to a typed parameter (recorded findings); concurrently: groups of 3-4 seeded histories spawned as coroutines of one VM "
                    "behind a start barrier, 3 runs per group under -race, every history compared with the model of that history alone; "
